@@ -68,6 +68,36 @@ func makeRegModel(versioned bool) porcupine.Model {
 					}
 				}
 				return true, strings.Join(parts, ",")
+			case "lv":
+				// a version listing's entries for this key: the versions,
+				// and which entry is flagged IsLatest
+				var vs []string
+				top := ""
+				if st != "" {
+					for _, p := range strings.Split(st, ",") {
+						top = p
+						if p != "-" {
+							vs = append(vs, p[strings.Index(p, "|")+1:])
+						}
+					}
+				}
+				sort.Strings(vs) // the order of a key's versions within the listing is not promised
+				want := strings.Join(vs, ",") + "#"
+				switch {
+				case top == "-":
+					want += "-"
+				case top != "":
+					want += top[strings.Index(top, "|")+1:]
+				}
+				got := output.(regOut).V
+				if !versioned {
+					// the register: one 'null' version or nothing
+					want = st + "#" + st
+				}
+				if st == "" && (got == "#" || got == "#-") {
+					return true, st // a delete marker on a key without versions is the server's business
+				}
+				return got == want, st
 			default:
 				top := st
 				if i := strings.LastIndex(st, ","); i >= 0 {
@@ -91,6 +121,8 @@ func makeRegModel(versioned bool) porcupine.Model {
 				return "delete"
 			case "dv":
 				return "delete-version " + short(in.V)
+			case "lv":
+				return "list-versions -> " + output.(regOut).V
 			}
 			return "read -> " + short(output.(regOut).V)
 		},
@@ -105,6 +137,37 @@ func short(s string) string {
 		return s[:8]
 	}
 	return s
+}
+
+// bucketVerModel: whether the bucket ever had versioning, as version listings
+// show it (a bucket that never had shows 'null' for every version, one that
+// had shows ids for every version; a page showing both matches no instant).
+var bucketVerModel = porcupine.Model{
+	Init: func() interface{} { return false },
+	Step: func(state, input, output interface{}) (bool, interface{}) {
+		on := state.(bool)
+		switch input.(regIn).Kind {
+		case "enable":
+			return true, true
+		default:
+			switch output.(regOut).V {
+			case "empty":
+				return true, on
+			case "null":
+				return !on, on
+			case "ids":
+				return on, on
+			}
+			return false, on
+		}
+	},
+	Equal: func(a, b interface{}) bool { return a.(bool) == b.(bool) },
+	DescribeOperation: func(input, output interface{}) string {
+		if input.(regIn).Kind == "enable" {
+			return "enable versioning"
+		}
+		return "list-versions shows " + output.(regOut).V + " ids"
+	},
 }
 
 // ---- multipart model (one partition per upload id)
@@ -511,6 +574,82 @@ func (r *Run) execLin(ci, oi int, op *Op) {
 			h.add("k:"+op.B+"/"+k.Key, ci, call, ret, regIn{Kind: "r"}, regOut{seen[k.Key]}, "list -> "+short(seen[k.Key]))
 		}
 		r.logf("c%d#%d list [%d,%d] -> %d keys", ci, oi, call, ret, len(x.Contents))
+	case "lsversions":
+		call := h.tick()
+		resp := r.simple("GET", target(op.B, "", url.Values{"versions": {""}}), op)
+		ret := h.tick()
+		r.noPanic(resp, "list object versions")
+		if resp.Status == 404 && resp.Code == "NoSuchBucket" && h.bucketMayBeAbsent(call) {
+			return
+		}
+		x, err := parseVersions(resp.Body)
+		if resp.Status != 200 || err != nil {
+			r.linFail("lin.register", "ListObjectVersions fails", "200", resp.String()+" "+resp.Msg)
+		}
+		// per key: the versions and the flagged entry
+		vers := map[string][]string{}
+		latest := map[string]string{}
+		kinds := map[string]int{}
+		for _, e := range x.Entries {
+			et := strings.Trim(e.ETag, `"`)
+			if !e.Marker {
+				if _, ok := h.bodies[et]; !ok {
+					r.linFail("lin.integrity", "a version is listed with an ETag that is no upload's MD5", "some upload", e.Key+" "+et)
+				}
+				if sum, ok := h.verOf[e.VersionID]; ok && sum != et {
+					r.linFail("lin.version", "a version id is listed with another upload's ETag than the upload that was given the id", sum, et)
+				}
+				vers[e.Key] = append(vers[e.Key], et)
+				if e.VersionID == "null" {
+					kinds["null"]++
+				} else {
+					kinds["id"]++
+				}
+			}
+			if e.IsLatest {
+				switch {
+				case latest[e.Key] != "":
+					latest[e.Key] = "multi"
+				case e.Marker:
+					latest[e.Key] = "-"
+				default:
+					latest[e.Key] = et
+				}
+			}
+		}
+		if !r.Plan.Config.LinSetVer {
+			for _, k := range op.Keys {
+				sort.Strings(vers[k.Key])
+				out := strings.Join(vers[k.Key], ",") + "#" + latest[k.Key]
+				h.add("k:"+op.B+"/"+k.Key, ci, call, ret, regIn{Kind: "lv"}, regOut{out}, "list-versions -> "+out)
+			}
+		} else {
+			// the run switches versioning on for the first time under the
+			// listings: a listing shows the bucket before or after the switch
+			cls := "empty"
+			switch {
+			case kinds["null"] > 0 && kinds["id"] > 0:
+				cls = "mixed"
+			case kinds["null"] > 0:
+				cls = "null"
+			case kinds["id"] > 0:
+				cls = "ids"
+			}
+			h.add("b:"+op.B, ci, call, ret, regIn{Kind: "lvb"}, regOut{cls}, "list-versions shows "+cls+" version ids")
+		}
+		r.probe("version listing in a concurrent run")
+		r.logf("c%d#%d lsversions [%d,%d] -> %d entries", ci, oi, call, ret, len(x.Entries))
+	case "setver":
+		body := `<VersioningConfiguration xmlns="http://s3.amazonaws.com/doc/2006-03-01/"><Status>Enabled</Status></VersioningConfiguration>`
+		call := h.tick()
+		resp := r.send(&simnet.Request{Method: "PUT", Target: target(op.B, "", url.Values{"versioning": {""}}),
+			Headers: [][2]string{{"Content-Length", strconv.Itoa(len(body))}}, Body: []byte(body)}, op.Faults, r.frag(op))
+		ret := h.tick()
+		if !mustOK(resp, "PUT versioning", call) {
+			return
+		}
+		h.add("b:"+op.B, ci, call, ret, regIn{Kind: "enable"}, regOut{}, "enable versioning")
+		r.logf("c%d#%d setver [%d,%d] -> %s", ci, oi, call, ret, resp.String())
 	case "delmulti":
 		var body bytes.Buffer
 		body.WriteString("<Delete>")
@@ -773,6 +912,10 @@ func (r *Run) afterLin() {
 						r.probe("read overlapped a write of the same key")
 					case a.Kind == "w" && b.Kind == "w":
 						r.probe("two writes of the same key overlapped")
+					case a.Kind == "lv" && b.Kind != "lv" && b.Kind != "r", b.Kind == "lv" && a.Kind != "lv" && a.Kind != "r":
+						r.probe("a version listing overlapped a change of a key it shows")
+					case a.Kind == "lvb" && b.Kind == "enable", a.Kind == "enable" && b.Kind == "lvb":
+						r.probe("a version listing overlapped the first enabling of versioning")
 					case a.Kind == "d" || b.Kind == "d":
 						r.probe("a delete overlapped another operation on the key")
 					}
@@ -795,6 +938,9 @@ func (r *Run) afterLin() {
 		cl := "lin.register"
 		if strings.HasPrefix(p, "u:") {
 			m, cl = mpuModel, "lin.mpu"
+		}
+		if strings.HasPrefix(p, "b:") {
+			m = bucketVerModel
 		}
 		if len(ops) > 90 {
 			r.stats.Porcupine["skipped-too-long"]++
